@@ -67,6 +67,11 @@ pub enum K {
     Call,
     Iterate,
     Nop,
+    Random,
+    RandomPerm,
+    Prf,
+    PermPrf,
+    Dup,
 }
 
 #[derive(Clone, Debug, Serialize, Deserialize, PartialEq, Eq, Hash)]
@@ -805,6 +810,44 @@ impl<'a> Builder<'a> {
             K::Nop => {
                 let ia = pool.pick_where(s.a, |_| true)?;
                 pool.nodes[ia].nop().ok().map(|n| pool.push(n))
+            }
+            K::Random => g.random(type_from_params(&s.p)).ok().map(|n| pool.push(n)),
+            K::RandomPerm => g.random_permutation(1 + (s.p[0] % 6) as u64).ok().map(|n| pool.push(n)),
+            K::Prf | K::PermPrf => {
+                // keys are 128-bit BIT arrays derived from Random (or Input) nodes
+                let key_t = array_type(vec![128], BIT);
+                let kt = key_t.clone();
+                // never a Constant-derived key: only Random / Input nodes (or a NOP directly on one)
+                let is_key_source = |n: &Node| {
+                    let direct = |m: &Node| matches!(m.get_operation(), ciphercore_base::graphs::Operation::Random(_) | ciphercore_base::graphs::Operation::Input(_));
+                    direct(n) || (matches!(n.get_operation(), ciphercore_base::graphs::Operation::NOP) && direct(&n.get_node_dependencies()[0]))
+                };
+                let cands: Vec<usize> = (0..pool.nodes.len()).filter(|i| pool.types[*i] == kt && is_key_source(&pool.nodes[*i])).collect();
+                let picked = if cands.is_empty() { None } else { Some(cands[cands.len() - 1 - pick(s.a, cands.len())]) };
+                let ik = match picked {
+                    Some(i) if s.p[1] % 4 != 0 => i,
+                    _ => {
+                        let n = g.random(key_t).ok()?;
+                        pool.push(n)
+                    }
+                };
+                let iv = (s.p[0] % 4) as u64; // small counters: collisions between nodes are likely
+                if s.k == K::Prf {
+                    pool.nodes[ik].prf(iv, type_from_params(&[s.p[2], s.p[3], s.b, 0])).ok().map(|n| pool.push(n))
+                } else {
+                    pool.nodes[ik].permutation_from_prf(iv, 1 + (s.p[2] % 6) as u64).ok().map(|n| pool.push(n))
+                }
+            }
+            K::Dup => {
+                // re-add an existing node: same operation, same dependencies
+                let ia = pool.pick_where(s.a, |_| true)?;
+                let n = pool.nodes[ia].clone();
+                if n.get_operation().is_input() {
+                    return None;
+                }
+                g.add_node(n.get_node_dependencies(), n.get_graph_dependencies(), n.get_operation())
+                    .ok()
+                    .map(|n| pool.push(n))
             }
         }
     }
